@@ -102,10 +102,13 @@ class C03(core.Check):
         def on_alarm(signum, frame):
             raise Hang()
         old_handler = signal.signal(signal.SIGALRM, on_alarm)
-        signal.setitimer(signal.ITIMER_REAL, 3.0)       # a layout loop that does not terminate must not block the check
+        # a layout loop that does not terminate must not block the check (after several hangs: a shorter leash)
+        hangs = getattr(self, "_hangs", 0)
+        signal.setitimer(signal.ITIMER_REAL, 2.0 if hangs < 10 else 0.3)
         try:
             return self._run_impl(case, urwid, text_layout, enc, res)
         except Hang:
+            self._hangs = hangs + 1
             for k in ("layout", "rows", "pack", "pack0", "render"):
                 res.setdefault(k, "Err:DoesNotTerminate")
             return res
